@@ -3,7 +3,10 @@
 
 package gocql
 
-import "context"
+import (
+	"context"
+	"time"
+)
 
 // Verification hooks: compiled only with the "verif" build tag. The harness under
 // /verif installs the function variables; every call site is a single added line at a
@@ -14,6 +17,7 @@ var (
 	verifConnHook  func(point string, c *Conn, call *callReq, a, b int, err error)
 	verifCtxHook   func(ctx context.Context, c *Conn, call *callReq)
 	verifEventHook func(point string, obj interface{}, s string, a int, err error)
+	verifDurHook   func(point string, c *Conn, d time.Duration) time.Duration
 )
 
 func verifConn(point string, c *Conn, call *callReq, a, b int) {
@@ -38,4 +42,13 @@ func verifEvent(point string, obj interface{}, s string, a int, err error) {
 	if h := verifEventHook; h != nil {
 		h(point, obj, s, a, err)
 	}
+}
+
+// verifDur lets the harness scale a pause of the driver (heartbeat interval); the
+// duration is unchanged unless a hook is installed.
+func verifDur(point string, c *Conn, d time.Duration) time.Duration {
+	if h := verifDurHook; h != nil {
+		return h(point, c, d)
+	}
+	return d
 }
